@@ -200,6 +200,81 @@ Theorem C08_tables_on_image : forall v dd, ViewsProofs.view_ok v -> (forall i, v
 Proof. exact ExportsProofs.view_by_is_spec. Qed.
 Print Assumptions C08_tables_on_image.
 
+(* 9b. WHICH bytes are decoded HOW (audit: C08_tables_on_image runs the same decoder over slice and slice_spec and so only
+       restates C04 / C05).  Spec/ExportShape.v states the tables over the bytes of the view at the fixed offsets of the
+       Export Directory Table of the PE/COFF specification, without the model decoder:
+         dword_at g o = g o + 256 g(o+1) + 65536 g(o+2) + 16777216 g(o+3),   word_at g o = g o + 256 g(o+1);
+         table_shape v a n w dec = Ok [] when a = 0, else the w*n bytes (w-aligned) that slicing yields at rva a, decoded item by item;
+         tables_shape v dd = the 40-byte directory at dd.VirtualAddress (4-aligned), then functions = NumberOfFunctions (offset 20) dwords
+           at AddressOfFunctions (28), names = NumberOfNames (24) dwords at AddressOfNames (32), name_indices = NumberOfNames words at
+           AddressOfNameOrdinals (36), Base = the dword at offset 16; the first failing step, in that order, is the result. *)
+From PV.Spec Require Import ExportShape.
+From PV.Proofs Require ExportsShape.
+
+Theorem C08_tables_shape_closed : forall v dd, (forall i, v_get v i < 256) -> view_by v dd = tables_shape v dd.
+Proof. exact ExportsShape.view_by_shape. Qed.
+Print Assumptions C08_tables_shape_closed.
+
+(* the same pointwise: entry i of each table is the little-endian item at offset w*i of the region slicing yields at the
+   table's rva; a table whose rva is 0 is EMPTY ([is_table] of Spec/ExportShape.v) *)
+Theorem C08_tables_shape : forall v va sz t, (forall i, v_get v i < 256) -> view_by v (Some (va, sz)) = Ok t ->
+  exists d, slice v va EXPDIR_SIZE 4 = Ok d /\
+    let g := v_get v in let x := r_off d in
+    t_base t = dword_at g (x + EXPDIR_ORDINAL_BASE) /\ t_dva t = va /\ t_dsize t = sz /\
+    is_table v (dword_at g (x + EXPDIR_EXPORT_ADDRESS_TABLE_RVA)) (dword_at g (x + EXPDIR_ADDRESS_TABLE_ENTRIES)) 4 dword_at (t_funcs t) /\
+    is_table v (dword_at g (x + EXPDIR_NAME_POINTER_RVA)) (dword_at g (x + EXPDIR_NUMBER_OF_NAME_POINTERS)) 4 dword_at (t_names t) /\
+    is_table v (dword_at g (x + EXPDIR_ORDINAL_TABLE_RVA)) (dword_at g (x + EXPDIR_NUMBER_OF_NAME_POINTERS)) 2 word_at (t_idxs t).
+Proof. exact ExportsShape.view_by_tables_shape. Qed.
+Print Assumptions C08_tables_shape.
+
+(* the error cases: no directory entry -> Bounds; VirtualAddress 0 -> Null; the directory does not slice -> that error;
+   then the address table, the name pointer table, the ordinal table in this order: the first one that is present
+   (rva <> 0) and does not slice gives its slicing error; if all three are absent or slice, by() succeeds *)
+Theorem C08_tables_errors : forall v va sz, (forall i, v_get v i < 256) ->
+  view_by v None = Err EBounds /\
+  (va = 0 -> view_by v (Some (va, sz)) = Err ENull) /\
+  (forall e, slice v va EXPDIR_SIZE 4 = Err e -> view_by v (Some (va, sz)) = Err e) /\
+  forall d, slice v va EXPDIR_SIZE 4 = Ok d ->
+    let g := v_get v in let x := r_off d in
+    let af := dword_at g (x + EXPDIR_EXPORT_ADDRESS_TABLE_RVA) in let nf := dword_at g (x + EXPDIR_ADDRESS_TABLE_ENTRIES) in
+    let an := dword_at g (x + EXPDIR_NAME_POINTER_RVA) in let nn := dword_at g (x + EXPDIR_NUMBER_OF_NAME_POINTERS) in
+    let ao := dword_at g (x + EXPDIR_ORDINAL_TABLE_RVA) in
+    (forall e, af <> 0 -> slice v af (4 * nf) 4 = Err e -> view_by v (Some (va, sz)) = Err e) /\
+    (forall e, (af = 0 \/ exists r, slice v af (4 * nf) 4 = Ok r) -> an <> 0 -> slice v an (4 * nn) 4 = Err e ->
+       view_by v (Some (va, sz)) = Err e) /\
+    (forall e, (af = 0 \/ exists r, slice v af (4 * nf) 4 = Ok r) -> (an = 0 \/ exists r, slice v an (4 * nn) 4 = Ok r) ->
+       ao <> 0 -> slice v ao (2 * nn) 2 = Err e -> view_by v (Some (va, sz)) = Err e) /\
+    ((af = 0 \/ exists r, slice v af (4 * nf) 4 = Ok r) -> (an = 0 \/ exists r, slice v an (4 * nn) 4 = Ok r) ->
+     (ao = 0 \/ exists r, slice v ao (2 * nn) 2 = Ok r) -> exists t, view_by v (Some (va, sz)) = Ok t).
+Proof. exact ExportsShape.view_by_errors. Qed.
+Print Assumptions C08_tables_errors.
+
+(* slicing answers Null exactly at rva 0 (so "absent" above is exactly "rva = 0") *)
+Theorem C08_slice_null_iff : forall v a m al, slice v a m al = Err ENull <-> a = 0.
+Proof. exact ExportsShape.slice_null_iff. Qed.
+Print Assumptions C08_slice_null_iff.
+
+(* get_export(key) - the extracted functions the driver calls - is the lookup on those tables *)
+Theorem C08_get_export_shape : forall v dd, (forall i, v_get v i < 256) ->
+  (forall o, get_export_ordinal v dd o =
+     match tables_shape v dd with Ok t => ordinal (view_cstr v) t o | Err e => Err e | Fault f => Fault f end) /\
+  (forall n, get_export_name v dd n =
+     match tables_shape v dd with Ok t => name (view_cstr v) t n | Err e => Err e | Fault f => Fault f end) /\
+  (forall i, get_export_import v dd i =
+     match tables_shape v dd with Ok t => import_ (view_cstr v) t i | Err e => Err e | Fault f => Fault f end).
+Proof. exact ExportsShape.get_export_shape. Qed.
+Print Assumptions C08_get_export_shape.
+
+Example C08_shape_nonvacuous :
+  view_by ExportsShape.ex_shape_view (Some (16, 40))
+  = Ok {| t_funcs := [4096; 8192]; t_names := []; t_idxs := [1]; t_base := 5; t_dva := 16; t_dsize := 40 |} /\
+  tables_shape ExportsShape.ex_shape_view (Some (16, 40))
+  = Ok {| t_funcs := [4096; 8192]; t_names := []; t_idxs := [1]; t_base := 5; t_dva := 16; t_dsize := 40 |} /\
+  tables_shape ExportsShape.ex_shape_view (Some (100, 40)) = Err EBounds /\
+  tables_shape ExportsShape.ex_shape_view (Some (18, 40)) = Err EMisaligned /\
+  get_export_ordinal ExportsShape.ex_shape_view (Some (16, 40)) 6 = Ok (Symbol 8192).
+Proof. vm_compute. repeat split; reflexivity. Qed.
+
 (* the code as it stood (F6, F7) *)
 Theorem C08_F6_is_forwarded_orig_refuted :
   let t := {| t_funcs := [12287]; t_names := []; t_idxs := []; t_base := 1; t_dva := 8192; t_dsize := 4294967295 |} in
